@@ -404,7 +404,11 @@ class OrderingList(List[_T]):
             for i in range(start, stop, step):
                 self.__setitem__(i, entities[i])
         else:
-            self._order_entity(int(index), entity, True)  # type: ignore[arg-type] # noqa: E501
+            position = int(index)  # type: ignore[arg-type]
+            if position < 0:
+                # plain-list semantics: a negative index counts from the end
+                position += len(self)
+            self._order_entity(position, entity, True)
             super().__setitem__(index, entity)  # type: ignore[assignment]
 
     def __delitem__(self, index: Union[SupportsIndex, slice]) -> None:
